@@ -196,3 +196,69 @@ func FaultHit() bool { return faultAt >= 0 && writes > faultAt }
 
 // Writes returns the number of mutating calls since ArmFault.
 func Writes() int { return writes }
+
+// And, Or, Not, Implies combine conditions without creating branches (under
+// symgo they build one formula instead of forking the path).
+func And(a, b bool) bool     { return a && b }
+func Or(a, b bool) bool      { return a || b }
+func Not(a bool) bool        { return !a }
+func Implies(a, b bool) bool { return !a || b }
+
+// IteI64 etc. select without branching.
+func IteI64(c bool, a, b int64) int64 {
+	if c {
+		return a
+	}
+	return b
+}
+func IteU64(c bool, a, b uint64) uint64 {
+	if c {
+		return a
+	}
+	return b
+}
+func IteI32(c bool, a, b int32) int32 {
+	if c {
+		return a
+	}
+	return b
+}
+func IteU32(c bool, a, b uint32) uint32 {
+	if c {
+		return a
+	}
+	return b
+}
+
+// Scope runs f as a sub-exploration: every path through f is explored up to
+// the end of f, but only the first one continues after it, and the
+// constraints collected inside f are dropped at its end. f must not change
+// any state that outlives it (use it for observations and assertions with
+// fresh symbolic query parameters).
+func Scope(f func()) {
+	nm := len(Mismatch)
+	defer func() {
+		if r := recover(); r != nil {
+			if sr, ok := r.(stopReplay); ok && sr.why == "assume" {
+				// the recorded model does not pin the inputs of a closed
+				// sub-exploration: skip the rest of it
+				Mismatch = Mismatch[:nm]
+				return
+			}
+			panic(r)
+		}
+	}()
+	f()
+}
+
+// BytesEq compares without branching.
+func BytesEq(a, b []byte) bool {
+	if len(a) != len(b) {
+		return false
+	}
+	eq := true
+	for i := range a {
+		eq = And(eq, a[i] == b[i])
+	}
+	return eq
+}
